@@ -68,7 +68,8 @@ func (c10) Gen(r *sim.Rand, tier string, run uint64) *sim.Scenario {
 		case 4:
 			page = 0xFFFF
 		case 5:
-			page = r.Intn(0x8000) // low half: always-error streams
+			page = r.Intn(0x8000) // low half: always-error streams, whatever the bank
+			bank = sim.PickInt(r, bank, r.Intn(256), 0x40, 0x7E, 0x80, 0xC0, 0xFF)
 		case 6:
 			page = 0xFFF0 + r.Intn(16)
 		case 7:
@@ -409,7 +410,7 @@ func (c c10) Exec(sc *sim.Scenario, env *sim.Env) (viol *sim.Violation) {
 			id, addr := op.Arg(0), uint32(op.Arg(1))&0xFFFFFF
 			bank, page := int(addr>>16), int(addr&0xFFFF)
 			s := &c10stream{isW: op.K == "open_w", low: page < 0x8000}
-			if bank > 0x7F || (!s.low && bank >= nb) || (s.low && bank > 0xFF) {
+			if (!s.low && (bank > 0x7F || bank >= nb)) || (s.low && bank > 0xFF) {
 				s.skip = true
 				streams[id] = s
 				continue
